@@ -31,7 +31,8 @@ RULE = (
     "seg, ndim, |subset|, |closure|, |nodes|, #lineages hit)."
 )
 ASSUMPTIONS = ["subsets are non-empty and contain only existing nodes"]
-REQUIRED_CLASSES = {t: ["c15:closure_strictly_between", "c15:several_lineages", "part:geff", "part:csv", "c15:after_session", "c15:imported_seg_id_differs"]
+REQUIRED_CLASSES = {t: ["c15:closure_strictly_between", "c15:several_lineages", "part:geff", "part:csv", "c15:after_session", "c15:imported_seg_id_differs",
+                        "c15:export_history_export"]
                     for t in ("quick", "thorough")}
 
 
@@ -39,6 +40,7 @@ def _make(rnd, fmt, session=False):
     cfg = gen_config(rnd, allow_optional=False)
     init = gen_init(rnd, cfg, max_nodes=10, need_edges=True)
     ops = []
+    mid = []
     ids = [n["id"] for n in init["nodes"]]
     parents = {n["id"]: n["parent"] for n in init["nodes"]}
     if session:
@@ -52,6 +54,14 @@ def _make(rnd, fmt, session=False):
             for _ in range(rnd.randint(3, 12)):
                 world.apply(gen_op(world, rnd, weights))
         ops = list(world.trace)
+        mid = []
+        if rnd.random() < 0.5:
+            # export once, step through history, export the same selection again
+            mid = [{"op": "undo"}] * rnd.randint(1, 2) if rnd.random() < 0.7 else [{"op": "undo"}, {"op": "redo"}, {"op": "undo"}]
+            with warnings.catch_warnings():
+                warnings.simplefilter("ignore")
+                for o in mid:
+                    world.apply(dict(o))
         ids = world.nodes()
         parents = {n: None for n in ids}
         for u, v in world.edges():
@@ -64,7 +74,7 @@ def _make(rnd, fmt, session=False):
         for _ in range(k):
             pool = leaves if (leaves and rnd.random() < 0.6) else ids
             subset.append(pool[rnd.randint(0, len(pool) - 1)])
-    return {"init": init, "ops": ops, "subset": sorted(set(subset)), "fmt": fmt,
+    return {"init": init, "ops": ops, "mid_ops": mid if session else [], "subset": sorted(set(subset)), "fmt": fmt,
             "display": rnd.random() < 0.3, "zarr": 3 if rnd.random() < 0.3 else 2}
 
 
@@ -94,6 +104,24 @@ def probe(inp) -> ProbeResult:
         world = World(inp["init"])
         for op in inp.get("ops", []):
             world.apply(dict(op))
+        if inp.get("mid_ops"):
+            first = set(inp["subset"]) & set(world.nodes())
+            if first:
+                from funtracks.import_export import export_to_csv, export_to_geff
+
+                tmp0 = Path(tempfile.mkdtemp(prefix="verif-c15-"))
+                try:
+                    if inp["fmt"] == "csv":
+                        export_to_csv(world.tracks, tmp0 / "first.csv", node_ids=first)
+                    else:
+                        export_to_geff(world.tracks, tmp0 / "first", node_ids=first)
+                    res.tags.append("c15:export_history_export")
+                except Exception:  # noqa: BLE001 - judged by the final export only
+                    pass
+                finally:
+                    shutil.rmtree(tmp0, ignore_errors=True)
+            for op in inp["mid_ops"]:
+                world.apply(dict(op))
     if inp.get("ops"):
         res.tags.append("c15:after_session")
     if not set(inp["subset"]) <= set(world.nodes()):
@@ -264,12 +292,12 @@ def probe_imported(inp) -> ProbeResult:
 
 
 PARTS = [
-    Part("csv", inputs("csv"), probe, quick=800, thorough=8000),
-    Part("geff", inputs("geff"), probe, quick=500, thorough=6000),
-    Part("csv_session", inputs("csv", session=True), probe, quick=300, thorough=3000),
-    Part("geff_session", inputs("geff", session=True), probe, quick=200, thorough=2000),
-    Part("geff_imported", imported_inputs("geff"), probe_imported, quick=250, thorough=2500),
-    Part("csv_imported", imported_inputs("csv"), probe_imported, quick=250, thorough=2500),
+    Part("csv", inputs("csv"), probe, quick=800, thorough=8000, shrink=False),
+    Part("geff", inputs("geff"), probe, quick=500, thorough=6000, shrink=False),
+    Part("csv_session", inputs("csv", session=True), probe, quick=300, thorough=3000, shrink=False),
+    Part("geff_session", inputs("geff", session=True), probe, quick=200, thorough=2000, shrink=False),
+    Part("geff_imported", imported_inputs("geff"), probe_imported, quick=250, thorough=2500, shrink=False),
+    Part("csv_imported", imported_inputs("csv"), probe_imported, quick=250, thorough=2500, shrink=False),
 ]
 
 
